@@ -166,7 +166,7 @@ func streamFn(seed uint64, idx int) caseT {
 // The 14-value universe of the ill-typed matrix: every JSON type, empty and
 // non-empty, homogeneous and mixed arrays, an expression reference and one
 // with ill-typed keys.
-var matrixArgs = []string{"`null`", "`true`", "`1`", "`\"a\"`", "`\"\"`", "`[]`", "`[1,2]`", "`[\"a\",\"b\"]`", "`[1,\"a\"]`", "`[{\"a\":1},{\"a\":2}]`", "`{}`", "`{\"a\":1}`", "&a", "&`null`"}
+var matrixArgs = []string{"&@", "`null`", "`true`", "`1`", "`\"a\"`", "`\"\"`", "`[]`", "`[1,2]`", "`[\"a\",\"b\"]`", "`[1,\"a\"]`", "`[{\"a\":1},{\"a\":2}]`", "`{}`", "`{\"a\":1}`", "&a", "&`null`"}
 var matrixNames = func() []string {
 	out := []string{}
 	for _, s := range fnSigs {
@@ -651,14 +651,16 @@ func streamFnSeq(seed uint64, idx int) caseT {
 	sig := fnSigs[idx%len(fnSigs)]
 	n := 2 + g.r.intn(3)
 	arr := make([]interface{}, n)
-	pool := []string{"`null`", "`true`", "`1`", "`\"a\"`", "`[]`", "`[1,2]`", "`[\"a\",\"b\"]`", "`[1,\"a\"]`", "`[{\"a\":1},{\"a\":2}]`", "`{}`", "`{\"a\":1}`", "`[2,1]`", "`[[1,2],[1,\"a\"]]`", "`\"\"`", "`2.5`"}
+	pool := []string{"`null`", "`true`", "`1`", "`\"a\"`", "`[]`", "`[1,2]`", "`[\"a\",\"b\"]`", "`[1,\"a\"]`", "`[{\"a\":1},{\"a\":2}]`", "`{}`", "`{\"a\":1}`", "`[2,1]`", "`[[1,2],[1,\"a\"]]`", "`\"\"`", "`2.5`",
+		// by-expression keys that are containers (equal ones, after a number or string key) or booleans / nulls
+		"`[{\"a\":1},{\"a\":[0]},{\"a\":[0]}]`", "`[{\"a\":\"x\"},{\"a\":{}},{\"a\":{}}]`", "`[{\"a\":1},{\"a\":null},{\"a\":null}]`", "`[{\"a\":2},{\"a\":1},{\"a\":true},{\"a\":true}]`", "`[1,\"a\",\"a\"]`"}
 	for i := range arr {
 		arr[i] = mustJSON(strings.Trim(pool[g.r.intn(len(pool))], "`"))
 	}
 	second := ""
 	if len(sig.params) > 1 || sig.varia {
 		if len(sig.params) > 1 && sig.params[1] == "expref" {
-			second = ", &a"
+			second = ", " + g.r.pick([]string{"&a", "&a", "&@", "&a.b", "&[a][0]"})
 		} else {
 			second = ", " + pool[g.r.intn(len(pool))]
 		}
